@@ -1,6 +1,6 @@
 (* Corr.v — comparison helpers used ONLY by the correspondence check (generated case
    files); no theorem depends on them. *)
-From Coq Require Import QArith List Lia Bool String Arith.
+From Coq Require Import QArith Qabs List Lia Bool String Arith.
 From EAO Require Import Num LP Cert Mapping.
 Import ListNotations.
 Open Scope Q_scope.
@@ -63,3 +63,21 @@ Definition c01_case (nvar : nat) (nodes skip : list string) (steps : list nat) (
     steps_nodes_eqb (nodal_map nodes skip steps mp) impl_rec || steps_nodes_perm (nodal_map nodes skip steps mp) impl_rec;
     disp_table_close mp xr tab_r;
     negb solved || forallb (row_okb eps x) mrows ].
+
+(* ---- C04 ---- *)
+(* table: list of (asset, values per step 0..T-1) *)
+From EAO Require Import Dcf.
+Definition dcf_table_close (c x : vec) (mp : list mrow) (tab : list (string * vec)) : bool :=
+  forallb (fun e => let '(a, vals) := e in
+     vclose tol (map (fun t => dcf_asset c x mp a t) (seq 0 (List.length vals))) vals) tab.
+Definition c04_case (T : nat) (c : vec) (assets : list string) (mp : list mrow) (xr : vec)
+   (tab : list (string * vec)) : list bool :=
+  [ wf_mapb (List.length c) T c assets mp; dcf_table_close c xr mp tab ].
+
+(* ---- C03 / C18 ---- *)
+Definition c03_case (P : lp) (x y : vec) (reported_value eps : Q) (bools : list nat) : list bool :=
+  [ check_primal_eps eps P x;
+    Qle_bool (Qabs (reported_value - value P x)) eps;
+    check_opt eps P x y;
+    forallb (fun j => let v := nth j x 0 in Qle_bool (Qabs v) eps || Qle_bool (Qabs (v - 1)) eps) bools ].
+Definition c03_infeasible (P : lp) (y : vec) : bool := check_farkas P y.
